@@ -459,7 +459,7 @@ Lemma step_G1 e s L s' l :
   G1 s L -> step e s = (s', l) ->
   G1 s' (L ++ l) /\ ((forall a rel t, get_st a s <> Some (AConn false rel t POpen)) -> nobug l).
 Proof.
-  intros HG H. destruct e as [sp|a|a|a|a|a code hasloc|a|a]; simpl in H.
+  intros HG H. destruct e as [sp|a|a|a|a|a code hasloc|a|a|a|a]; simpl in H.
   - (* EFetch *)
     apply (fetch_impl_G1 _ _ _ _ L) in H; [destruct H as [H1 H2]; split; [exact H1|intros _; exact H2]|].
     exact HG.
@@ -504,6 +504,14 @@ Proof.
     apply (handle_exception_G1 _ _ _ L) in H; [|g1_same G]. destruct H as [H1 H2].
     split; [exact H1|intros _; exact H2].
   - (* EReset *)
+    destruct (get_st a s) as [[tm|cb rel t [| |]|]|] eqn:G; try (triv HG H).
+    apply (handle_exception_G1 _ _ _ L) in H; [|g1_same G]. destruct H as [H1 H2].
+    split; [exact H1|intros _; exact H2].
+  - (* EMalformed *)
+    destruct (get_st a s) as [[tm|cb rel t [| |]|]|] eqn:G; try (triv HG H).
+    apply (handle_exception_G1 _ _ _ L) in H; [|g1_same G]. destruct H as [H1 H2].
+    split; [exact H1|intros _; exact H2].
+  - (* EBadFraming *)
     destruct (get_st a s) as [[tm|cb rel t [| |]|]|] eqn:G; try (triv HG H).
     apply (handle_exception_G1 _ _ _ L) in H; [|g1_same G]. destruct H as [H1 H2].
     split; [exact H1|intros _; exact H2].
@@ -572,7 +580,7 @@ Qed.
 
 Lemma step_max e s s' l : step e s = (s', l) -> s_max s' = s_max s.
 Proof.
-  intro H. destruct e as [sp|a|a|a|a|a code hasloc|a|a]; simpl in H.
+  intro H. destruct e as [sp|a|a|a|a|a code hasloc|a|a|a|a]; simpl in H.
   - apply fetch_impl_max in H. exact H.
   - destruct (get_st a s) as [[[|]|cb rel t ph|]|]; destruct (owner_of a s) as [[g hop]|];
       try (injection H as <- <-; reflexivity).
@@ -591,6 +599,10 @@ Proof.
     apply handle_exception_max in H. rewrite H. apply set_st_max.
   - destruct (get_st a s) as [[tm|cb rel t [| |]|]|]; try (injection H as <- <-; reflexivity).
     apply finish_max in H. exact H.
+  - destruct (get_st a s) as [[tm|cb rel t [| |]|]|]; try (injection H as <- <-; reflexivity).
+    apply handle_exception_max in H. rewrite H. apply set_st_max.
+  - destruct (get_st a s) as [[tm|cb rel t [| |]|]|]; try (injection H as <- <-; reflexivity).
+    apply handle_exception_max in H. rewrite H. apply set_st_max.
   - destruct (get_st a s) as [[tm|cb rel t [| |]|]|]; try (injection H as <- <-; reflexivity).
     apply handle_exception_max in H. rewrite H. apply set_st_max.
   - destruct (get_st a s) as [[tm|cb rel t [| |]|]|]; try (injection H as <- <-; reflexivity).
